@@ -425,8 +425,10 @@ func (ds *AnySource) archiveNewDataBlock(block *dataBlock) {
 
 	requestFilled := ab.nSamp >= ab.requestedSamples
 	if requestFilled {
-		close(ab.complete)
+		// Closing the channel releases the goroutine that copies and writes the archive block:
+		// everything it reads, including this flag, has to be written before that.
 		ab.active = false
+		close(ab.complete)
 	}
 }
 
